@@ -75,11 +75,11 @@ Definition next_disj (l r : tree) (e : elem) : bool :=
   let (fr, cr) := pe r e in
   negb (negb fl && negb fr && match cl with [] => false | _ => true end && match cr with [] => false | _ => true end).
 
-(* the proved fragment: the surgery built the written tree; no next_rule, or one next_rule at the root of the
-   tree whose bindings are disjoint from those the earlier branches concluded *)
+(* the proved fragment: the surgery built the written tree (every node once) and the program has no next_rule.
+   [next_disj] describes when a next_rule at the root is harmless; that case is compared, not proved. *)
 Definition shape_ok (t : tree) (W : list elem) : bool :=
   match t with
   | Node _ SNext l r => nextfree l && nextfree r && forallb (next_disj l r) W
   | _ => nextfree t
   end.
-Definition Fb (prog : rule) (W : list elem) : bool := Gb prog && shape_ok (tree_of prog) W.
+Definition Fb (prog : rule) : bool := Gb prog && negb (has_next prog).
